@@ -184,6 +184,40 @@ class VEnc(object):
                        self.n(1 if e['double_sided'] else 0), self.n(self.atom(e['opaque_mode'])), self.l(params),
                        self.l([self.pval(e['props'][k]) for k in expect.ALL_PROPS]), self.pval(e['bumpmap'])])
 
+    def asset(self, A, xml_root):
+        """dates and the unit's meter are opaque in Coq (the text / attribute of the file): that pycollada's
+        datetime / float IS that instant / number is checked here, with an independent parse"""
+        if not A or not A.get('uid') or xml_root is None:
+            return 'Vnone'
+        ns = xml_root.tag[1:].split('}')[0] if xml_root.tag.startswith('{') else ''
+        q = (lambda n: '{%s}%s' % (ns, n)) if ns else (lambda n: n)
+        el = xml_root.find(q('asset'))
+        bad = self.l([self.n(99)])
+
+        def date(key, name):
+            c = el.find(q(name))
+            t = None if c is None else c.text
+            if t is None:
+                return 'Vnone' if A[key] is None else bad
+            m = re.match(r'^\s*(\d{4})-?(\d{2})-?(\d{2})(?:[T ](\d{2}):?(\d{2}):?(\d{2}))?', t)
+            want = [int(x) if x is not None else 0 for x in m.groups()] if m else None
+            return self.text(t) if want is not None and A[key] == want else bad
+        u = el.find(q('unit'))
+        unit = 'Vnone'
+        if u is not None and u.get('meter') is not None:
+            try:
+                ok = A['unitmeter'] == expect.fkey(u.get('meter'))
+            except Exception:  # noqa
+                ok = False
+            unit = self.l([self.aval(A['unitname']), self.aval(u.get('meter'))]) if ok else bad
+        elif A['unitname'] is not None or A['unitmeter'] is not None:
+            unit = bad
+        cons = [self.l([self.text(c[k]) for k in ('author', 'authoring_tool', 'comments', 'copyright', 'source_data')])
+                for c in A['contributors']]
+        return self.l([self.n(A['uid']), self.text(A['title']), self.text(A['subject']), self.text(A['revision']),
+                       self.text(A['keywords']), unit, self.n(self.atom(A['upaxis'])), date('created', 'created'),
+                       date('modified', 'modified'), self.l(cons)])
+
     def matnode(self, m):
         return self.l([self.n(m['uid']), self.aval(m['symbol']), self.n(m['target']['uid']),
                        self.l([self.l([self.aval(x) for x in b]) for b in m['inputs']])])
@@ -214,8 +248,9 @@ class VEnc(object):
         return self.l([self.n(a['uid']), self.aval_req(a['id']), self.aval_req(a['name']),
                        self.l([self.anim_tree(c) for c in a['children']])])
 
-    def doc(self, s):
+    def doc(self, s, xml_root=None):
         return self.l([
+            self.asset(s.get('asset'), xml_root),
             self.l([self.image(i) for i in s['images']]),
             self.l([self.effect(e) for e in s['effects']]),
             self.l([self.l([self.n(m['uid']), self.aval(m['id']), self.aval(m['name']), self.n(m['effect']['uid'])])
@@ -247,7 +282,8 @@ def coq_case(xml_bytes, snap, dom=False):
         enc.uid = 0
         second = '(Some %s)' % xml2coq.encode_bytes(xml_bytes, enc, reader='dom')[0]
     ve = VEnc(enc)
-    view = ve.doc(snap)
+    import xml.etree.ElementTree as ET
+    view = ve.doc(snap, ET.fromstring(xml_bytes))
     numtab = ve.numtab()       # after the view: every token of the document is in enc.nums already
     return '([%s], %s, %s, %s)' % ('; '.join('%d' % c for c in numtab), term, second, view), enc.I.table()
 
